@@ -125,6 +125,23 @@ Proof.
   exists r', e. split; [exact H|exact G].
 Qed.
 
+(* ... and so are _set_task_deadline and _unset_task_deadline (the stack of deadlines, the recorded timeout, the
+   armed timer): translated statement by statement, run by an interpreter, equal to the model's set_deadline /
+   unset_deadline for every state *)
+Theorem C11_deadline_code_known : tknown 5 set_deadline_code && tknown 5 unset_deadline_code = true.
+Proof. exact deadline_code_known. Qed.
+
+Theorem C11_set_deadline_from_source : forall s d,
+  exists x, trun 12 d (tctx_of s) set_deadline_code = Some x /\
+    t_ds x = deadlines (set_deadline s d) /\ t_tod x = timed_out (set_deadline s d) /\ t_armed x = armed (set_deadline s d).
+Proof. exact generated_set_deadline. Qed.
+
+Theorem C11_unset_deadline_from_source : forall s,
+  exists x, trun 12 0 (tctx_of s) unset_deadline_code = Some x /\
+    let '(tod, uncaught, s') := unset_deadline s in
+    t_read x = tod /\ t_unc x = uncaught /\ t_ds x = deadlines s' /\ t_armed x = armed s' /\ t_tod x = timed_out s'.
+Proof. exact generated_unset_deadline. Qed.
+
 Print Assumptions C11_facts.
 Print Assumptions C11_early_unaffected.
 Print Assumptions C11_fires_not_earlier.
@@ -139,3 +156,6 @@ Print Assumptions C11_body_first.
 Print Assumptions C11_reporting_level.
 Print Assumptions C11_aexit_code_known.
 Print Assumptions C11_aexit_from_source.
+Print Assumptions C11_deadline_code_known.
+Print Assumptions C11_set_deadline_from_source.
+Print Assumptions C11_unset_deadline_from_source.
